@@ -52,6 +52,7 @@ def fmtErr : Err → String
   | .lineTooLong | .tooManyHeaders | .badRequestLine | .unknownProtocol | .badMethod | .badStatusLine
   | .invalidBody | .prematureClosure => "err http"
   | .valueError => "err ValueError"
+  | .typeError => "err TypeError"
   | .unicodeError => "err UnicodeError"
   | .assertionError => "err AssertionError"
   | .outOfModel => "err out-of-model"
